@@ -188,34 +188,120 @@ def zids_before_index(run: Run, model: PyModel, rid: str) -> None:
                       "add_file converts the page for the database before assigning ZIDs: notes are indexed without a ZID", file=FILE_R, node=fi.node)
             run.check(rid, "the page is recorded so its events are drained", seen >= 0, "SQLRepo.add_file", "no _record_seen_page", "add_file does not record the page: its NewZorgNotesEvent is never collected and the file never gains the ZIDs", file=FILE_R, node=fi.node)
     run.floor("paths of add_file", n, 1)
+    zid_assignment_eval(run, model, rid)
     fz = model.func(f"{REPO}._add_zids")
-    fn = fz.node
-    loops = [l for l in walk_no_nested(fn) if isinstance(l, ast.For) and "notes" in ast.unparse(l.iter)]
-    ok = False
-    if len(loops) == 1:
-        ifs = [s for s in loops[0].body if isinstance(s, ast.If)]
-        if len(ifs) == 1 and ast.unparse(ifs[0].test).replace(" ", "") in ("note.zidisNone", "notnote.zid"):
-            body = ifs[0].body
-            assigns_zid = any(isinstance(s, ast.Assign) and ast.unparse(s.targets[0]).endswith(".zid") for s in body)
-            from_mgr = any("get_next" in ast.unparse(s) for s in body)
-            appended = any(isinstance(s, ast.Expr) and "append" in ast.unparse(s) for s in body)
-            ok = assigns_zid and from_mgr and appended and not ifs[0].orelse
-    run.check(rid, "every note without ZID gets one from the allocator and is queued for write-back", ok, "_add_zids", "loop over notes", "_add_zids does not give every ZID-less note a fresh ZID and queue it for the file write-back", file=FILE_R, node=fn)
-    evs = [s for s in walk_no_nested(fn) if isinstance(s, ast.If) and any("events.append" in ast.unparse(x) for x in s.body)]
-    ok = len(evs) == 1 and isinstance(evs[0].test, ast.Name) and not evs[0].orelse
-    run.check(rid, "the write-back event is queued iff there are new notes", ok, "_add_zids", evs[0].test if evs else "no event", "the NewZorgNotesEvent is not queued exactly when new notes exist", file=FILE_R, node=fn)
-    # index-side body and file-side line drop the same optional leading word
     fl = model.func(f"{H}._add_zid_to_line")
-    idx_pred = sorted({ast.unparse(c.func) for c in ast.walk(fn) if isinstance(c, ast.Call) and "date_spec" in ast.unparse(c.func)})
-    file_pred = sorted({ast.unparse(c.func) for c in ast.walk(fl.node) if isinstance(c, ast.Call) and "date_spec" in ast.unparse(c.func)})
-    handrolled = [n2 for n2 in walk_no_nested(fl.node) if isinstance(n2, ast.Compare) and "len(" in ast.unparse(n2) and "10" in ast.unparse(n2)]
-    run.check(rid, "index body and file line drop a leading word under the same test", idx_pred == file_pred and len(idx_pred) == 1 and not handrolled, "_add_zids/_add_zid_to_line",
-              f"index side {idx_pred}, file side {file_pred or 'hand-rolled test'}",
-              f"the indexed body drops a leading word accepted by {idx_pred} while the file line drops one accepted by {file_pred or 'a hand-rolled check'}: for words only one side accepts, "
-              "index and file disagree (and the page is not re-read, its hash having been refreshed)", file=FILE_R, node=fn)
     for f in (fz, fl, model.func(f"{H}._add_or_update_modify_date"), model.func(f"{H}._check_for_modified_notes")):
         for call, why in split_join_mismatch(f.node):
             run.refuted(rid, f.name, call, f"{f.name}: {why}: the text is re-flowed (multi-line bodies collapse, spacing changes), so index and file stop agreeing", file=f.file, node=call)
+
+
+def zid_assignment_eval(run: Run, model: PyModel, rid: str) -> None:
+    """Abstract evaluation of _add_zids on a generic page and of _add_zid_to_line on the matching file lines:
+    every note without ZID gets the allocator's next ZID and is queued for write-back, notes that have one are untouched,
+    and the indexed body equals the file line behind the item prefix -- for a plain first word, a YYYY-MM-DD first word,
+    and a first word that only looks like a date (the date recogniser is an uninterpreted predicate answering the same on both sides)."""
+    from .absint import Interp, Raised, State
+    from .absval import HObj, Opaque, Ref, Term
+
+    LONG = {"2024-03-13": True, "2024x03y13": False, "2024-13-39": False}
+    asked: list = []
+
+    def long_date(I, args, kwargs, st, node):
+        w = args[0] if args else None
+        asked.append(w)
+        return [(bool(LONG.get(w, False)) if isinstance(w, str) else False, st)]
+
+    def get_next(I, args, kwargs, st, node):
+        k = st.meta.get("zid_counter", 0) + 1
+        st.meta["zid_counter"] = k
+        return [(f"<Z{k}>", st)]
+
+    def construct_any(I, args, kwargs, st, node):
+        return [(Opaque("zidmanager"), st)]
+
+    def meth(I, recv, name, args, kwargs, st, node):
+        if recv.cls == "zidmanager" and name == "get_next":
+            return get_next(I, args, kwargs, st, node)
+        if recv.cls.startswith("ext:"):
+            # loggers return nothing; anything else (datetime.strptime on the scenario's valid dates, ...) yields some object
+            return [(None if "ogger" in recv.cls or "logrus" in recv.cls else Opaque(recv.cls + "." + name + "!"), st)]
+        return None
+
+    ZM = "zorg.storage.sql._zid_manager.ZIDManager"
+    I = Interp(model, probes={"zorg.shared.dates.is_long_date_spec": long_date, f"{ZM}.get_next": get_next, ZM: construct_any, "method:*": meth}, max_states=4000)
+    fz = model.func(f"{REPO}._add_zids")
+    bodies = ["plain  first word\n  second line", "2024-03-13 dated  note", "2024x03y13 look-alike", "  2024-13-39 impossible date", "10d relative look-alike", "240102 short date first"]
+    st = State()
+
+    def N(body, zid):
+        return st.alloc(HObj("obj", cls="zorg.domain.models._page.Note", fields=dict(
+            body=body, zid=zid, modify_date=Term("marker:D", ()), create_date=Term("marker:D", ()), todo_payload=None, line_no=3, file_path=None, block=None,
+            projects=st.alloc(HObj("list")), areas=st.alloc(HObj("list")), contexts=st.alloc(HObj("list")), people=st.alloc(HObj("list")),
+            links=st.alloc(HObj("list")), properties=st.alloc(HObj("dict")))))
+
+    has = N("240101#00 already has one", "240101#00")
+    news = [N(b, None) for b in bodies]
+    page = st.alloc(HObj("obj", cls="zorg.domain.models._page.Page", fields=dict(notes=st.alloc(HObj("list", items=[news[0], has] + news[1:])), events=st.alloc(HObj("list")), path=Opaque("path:PAGE"))))
+    try:
+        res = I.run_function(f"{REPO}._add_zids", [Opaque("path:ZDIR"), page], st=st)
+    except Exception as e:
+        run.undecided(rid, "_add_zids", f"cannot evaluate abstractly: {type(e).__name__}: {e}")
+        return
+    n = 0
+    for v, s in res:
+        n += 1
+        if isinstance(v, Raised) or s.imprecise:
+            run.undecided(rid, "_add_zids", (f"raises {v.exc}" if isinstance(v, Raised) else "; ".join(s.imprecise[:2])))
+            continue
+        hf = s.obj(has).fields
+        run.check(rid, "a note that has a ZID is left alone", hf["zid"] == "240101#00" and hf["body"] == "240101#00 already has one", "_add_zids", "note with ZID changed",
+                  "a note that already has a ZID gets another one / its body rewritten", file=FILE_R, node=fz.node)
+        zids = [s.obj(x).fields["zid"] for x in news]
+        run.check(rid, "every note without ZID gets a fresh one from the allocator", all(isinstance(z, str) and z.startswith("<Z") for z in zids) and len(set(zids)) == len(zids), "_add_zids", f"zids {zids}",
+                  f"after _add_zids the ZID-less notes have ZIDs {zids}: not every note got its own ZID from the allocator", file=FILE_R, node=fz.node)
+        evs = s.obj(s.obj(page).fields["events"]).items
+        queued = []
+        if len(evs) == 1 and isinstance(evs[0], Ref):
+            for x in s.obj(evs[0]).fields.values():
+                if isinstance(x, Ref) and s.obj(x).kind == "list":
+                    queued = list(s.obj(x).items)
+        run.check(rid, "exactly the notes that received a ZID are queued for the file write-back (one event)", len(evs) == 1 and queued == news, "_add_zids", f"{len(evs)} events, {len(queued)} notes queued",
+                  "the NewZorgNotesEvent does not list exactly the notes that received a ZID: the file never gains some ZIDs and every later run assigns new ones", file=FILE_R, node=fz.node)
+        # sibling agreement index body <-> file line
+        for x, body in zip(news, bodies):
+            f = s.obj(x).fields
+            zid = f["zid"]
+            first_line = body.split("\n")[0]
+            try:
+                lres = I.run_function(f"{H}._add_zid_to_line", [zid, "- " + first_line.lstrip() if body.startswith(" ") else "- " + first_line], st=State())
+            except Exception as e:
+                run.undecided(rid, "_add_zid_to_line", f"cannot evaluate abstractly: {type(e).__name__}: {e}")
+                continue
+            for lv, ls in lres:
+                if isinstance(lv, Raised) or ls.imprecise or not isinstance(lv, str):
+                    run.undecided(rid, "_add_zid_to_line", f"{first_line!r}: " + (f"raises {lv.exc}" if isinstance(lv, Raised) else "; ".join(ls.imprecise[:2]) or repr(lv)))
+                    continue
+                idx_first = f["body"].split("\n")[0] if isinstance(f["body"], str) else None
+                ok = idx_first is not None and lv == "- " + idx_first
+                run.check(rid, f"index body and file line agree after the ZID is added (first word {first_line.split()[0]!r})", ok, "_add_zids/_add_zid_to_line", f"{first_line!r}: index {idx_first!r} file {lv!r}",
+                          f"for an item `- {first_line}` the indexed body starts {idx_first!r} but the file line becomes {lv!r}: index and file disagree (and the page is not re-read, its hash having been refreshed)",
+                          file=FILE_R, node=fz.node)
+            want_rest = first_line.lstrip()
+            if LONG.get(want_rest.split(" ")[0]):
+                want_rest = want_rest.split(" ", 1)[1]
+            exp = f"{zid} {want_rest}" + body[len(first_line):]
+            run.check(rid, f"the indexed body is the ZID, one blank and the note's own text (first word {first_line.split()[0]!r})", f["body"] == exp, "_add_zids", f"{body!r} -> {f['body']!r}",
+                      f"the body {body!r} is indexed as {f['body']!r}, expected {exp!r} (only a real YYYY-MM-DD first word is dropped; blanks and line breaks are kept)", file=FILE_R, node=fz.node)
+    run.floor("_add_zids evaluations", n, 1)
+    # no ZID-less note -> no event
+    st2 = State()
+    st = st2
+    only = N("240101#05 x", "240101#05")
+    page2 = st2.alloc(HObj("obj", cls="zorg.domain.models._page.Page", fields=dict(notes=st2.alloc(HObj("list", items=[only])), events=st2.alloc(HObj("list")), path=Opaque("path:PAGE"))))
+    for v, s in I.run_function(f"{REPO}._add_zids", [Opaque("path:ZDIR"), page2], st=st2):
+        evs = s.obj(s.obj(page2).fields["events"]).items
+        run.check(rid, "no write-back event when no note needed a ZID", not evs and not s.imprecise, "_add_zids", f"{len(evs)} events", "a page whose notes all have ZIDs still queues a write-back (the file is rewritten on every run)", file=FILE_R, node=fz.node)
 
 
 def change_detection(run: Run, model: PyModel, rid: str) -> None:
